@@ -75,10 +75,13 @@ Definition judge_C16 (case obs : sx) : sx :=
                      | Some [], _, _, _, _ => true
                      | _, _, _, _, _ => false end in
       (* totals *)
+      (* sums are carried out in the content dtype: float32 contents round at 2^-24 *)
+      let stol := match (x <- fld "sumtol" case ;; d_q x) with Some t => t | None => geps end in
+      let snear (scale a b : Qc) := Qcleb (Qcabs (a - b)) (stol * scale) in
       let total_ok := match (x <- fld "total_size" obs ;; d_q x) with
                       | Some t => gnear_s (sumq (map Qcabs msizes)) t (sumq msizes)
                       | None => false end &&
-                      match fld "total" obs with Some t => match d_q t with Some t => gnear_s (sumq (map Qcabs freq)) t (sumq freq) | None => false end | None => false end in
+                      match fld "total" obs with Some t => match d_q t with Some t => snear (sumq (map Qcabs freq)) t (sumq freq) | None => false end | None => false end in
       let width_ok := match fld "total_width" obs with
                       | Some (SS "n/a") | None => true
                       | Some t => match d_q t, axes with
@@ -101,7 +104,8 @@ Definition judge_C16 (case obs : sx) : sx :=
                       | Some (LL l) => Nat.eqb (length l) (length axes) &&
                                        all2 (fun ax e => if consecutive_exact ax then match d_list d_q e with Some el => all2 Qceqb el (to_edges ax) && Nat.eqb (length el) (length (to_edges ax)) | None => false end else true) axes l
                       | _ => false end in
-      let sub_ok := match (x <- fld "sub" case ;; d_list (d_pair d_nat d_nat) x), (x <- fld "sub_left" obs ;; d_qss x), (x <- fld "sub_right" obs ;; d_qss x),
+      let sub_ok := match fld "sub_left" obs with Some (SS _) => true | _ =>      (* slice not available (cut-off contents beyond a narrow integer dtype) *)
+                    match (x <- fld "sub" case ;; d_list (d_pair d_nat d_nat) x), (x <- fld "sub_left" obs ;; d_qss x), (x <- fld "sub_right" obs ;; d_qss x),
                           fld "sub_edges" obs, (x <- fld "sub_sizes" obs ;; d_list d_q x) with
                     | Some sl, Some ls, Some rs, Some (LL es), Some ss =>
                         let saxes := map (fun p => slice_bins (fst (snd p)) (snd (snd p)) (fst p)) (combine axes sl) in
@@ -113,11 +117,11 @@ Definition judge_C16 (case obs : sx) : sx :=
                              saxes (combine (combine ls rs) es) &&
                         Nat.eqb (length ss) (length (bin_sizes cls pi saxes scos)) && all2 (gnear_s scale) ss (bin_sizes cls pi saxes scos)
                     | None, _, _, _, _ => true
-                    | _, _, _, _, _ => false end in
+                    | _, _, _, _, _ => false end end in
       let cum_ok := match fld "cumulative" obs with
                     | Some (SS "n/a") => true
                     | Some c => match d_list d_q c with
-                                | Some cl => Nat.eqb (length cl) (length freq) && all2 (gnear_s (sumq (map Qcabs freq))) cl (running 0 freq)
+                                | Some cl => Nat.eqb (length cl) (length freq) && all2 (snear (sumq (map Qcabs freq))) cl (running 0 freq)
                                 | None => false end
                     | None => false end in
       (* merging adjacent bins along an axis adds their measures *)
